@@ -128,7 +128,7 @@ PoolFracT == <<FeO15, O2d, Fe2O3, FeOx, Fe3p, O05m>>
 Mbody == S("M", <<>>)
 Photon == S("hv", <<>>)
 PoolM == <<H2O, Hp, Mbody, OHm>>
-PoolMt == <<H2O, Hp, Mbody, OHm, Hat, El, Photon>>
+PoolMt == <<H2O, Hp, Mbody, OHm, Photon>>
 StNO3b == {<<3, 1, 2>>, <<1, 2, 0>>, <<0, 1, 3>>}
 NH3 == S("NH3", <<<<1, 3>>, <<7, 1>>>>)
 N2 == S("N2", <<<<7, 2>>>>)
